@@ -41,6 +41,10 @@ FAMILIES = {
                effs=["1.0", "1.0", "0.5", "0.7", "1.5", "2.0", "0.9", "1.3"], nres=(1, 3), ntasks=(2, 8),
                gap=[0, 0, 0, 10, 30, 45, 90, 60], dep=0.6, rleave=0.1, vac=0.05, gleave=0.1, prio=0.6, nest=0.3, contdep=0.2,
                milestone=0.1, pin=0.1, onstart=0.1, contstart=0.1),
+    "sdteam": dict(G=[3600, 3600, 1800, 900], efforts=[7, 10, 20, 25, 45, 50, 90, 100, 135, 200, 61, 119, 60, 120],
+                   effs=["1.0", "1.0", "0.5", "0.7", "1.5", "2.0", "0.9", "1.3"], nres=(2, 3), ntasks=(2, 8), team=0.45,
+                   gap=[0, 0, 0, 10, 30, 45, 90, 60], dep=0.6, rleave=0.1, vac=0.05, gleave=0.1, prio=0.6, nest=0.3, contdep=0.2,
+                   milestone=0.1, pin=0.1, onstart=0.1, contstart=0.1),
     "deps": dict(dupid=0.4, nest=0.6, depth=3, dep=0.8, precedes=0.3, rel=0.5, contdep=0.5, contstart=0.3, onstart=0.25, pin=0.15,
                  gap=[0, 60, 120, 480, 1440, 90, 30, 2880, 10080], ntasks=(3, 9), hours=0.2),
     "coredeps": dict(dupid=0.3, nest=0.6, depth=3, dep=0.8, precedes=0.3, rel=0.5, contdep=0.5, contstart=0.3, onstart=0.25, pin=0.15,
